@@ -2,6 +2,7 @@
 package c13
 
 import (
+	"sync"
 	"fmt"
 	"os"
 	"strings"
@@ -514,3 +515,80 @@ var histProp = h.Define(P, "history", func(t *rapid.T) HistCase {
 }, runHist)
 
 func TestGlobHistory(t *testing.T) { histProp.Check(t) }
+
+// ---------- concurrent evaluation ----------
+
+// TestConcurrentGlob: many like statements (patterns with none, one and several wildcards, escapes) evaluated at
+// the same time from several goroutines, each against several subjects, matching and not, every single result
+// compared with the glob language. Built once, shared by all goroutines - as the policies of loaded delegations are.
+// Runs under the race detector.
+func TestConcurrentGlob(t *testing.T) {
+	ctx := &h.Ctx{P: P, T: t}
+	type item struct {
+		pat, str string
+		want     bool
+		p        policy.Policy
+	}
+	var items []item
+	users := []string{"alice", "bob", "carol-7", "d*ve", `e\ve`, ""}
+	hosts := []string{"mail.example.com", "example.com", "mail.example.org", "x", "*.example.com"}
+	pats := []string{"user-*@*.example.com", "*@*", "*-*@*.*.com", "user-*", "*@mail.example.com", `*\**@*`, `*\\*@*`, "**", "a*b*c*d", "*a*b*", "user-alice@mail.example.com", "*"}
+	for i := 0; i < 400; i++ {
+		pats = append(pats, fmt.Sprintf("user-%d*@*.%d.example.com", i%37, i%11), fmt.Sprintf("*%d*%d*", i%13, i%7))
+	}
+	for _, pt := range pats {
+		for ui, u := range users {
+			for hi, hst := range hosts {
+				s := "user-" + u + "@" + hst
+				if (ui+hi)%3 == 0 {
+					s = fmt.Sprintf("user-%d-%s@m.%d.example.com", ui*7+hi, u, hi)
+				}
+				want, valid := pol.Glob(pt, s)
+				if !valid {
+					continue
+				}
+				p, err := policy.Construct(policy.Like(".", pt))
+				if err != nil {
+					t.Fatalf("INCONCLUSIVE %v", err)
+				}
+				items = append(items, item{pt, s, want, p})
+			}
+		}
+	}
+	var wg sync.WaitGroup
+	var mu sync.Mutex
+	var bad []string
+	rounds := h.N(3, 30)
+	for g := 0; g < 8; g++ {
+		wg.Add(1)
+		go func(g int) {
+			defer wg.Done()
+			for r := 0; r < rounds; r++ {
+				for k := range items {
+					it := items[(k*7+g*131+r*17)%len(items)]
+					got, _ := it.p.Match(basicnode.NewString(it.str))
+					if got != it.want {
+						mu.Lock()
+						if len(bad) < 5 {
+							bad = append(bad, fmt.Sprintf("like %q on %q: got %v, the glob language says %v", it.pat, it.str, got, it.want))
+						}
+						mu.Unlock()
+					}
+				}
+			}
+		}(g)
+	}
+	wg.Wait()
+	// and once more, sequentially, after the concurrent phase (a wrong entry left behind by two writers misleads later readers)
+	for _, it := range items {
+		if got, _ := it.p.Match(basicnode.NewString(it.str)); got != it.want && len(bad) < 5 {
+			bad = append(bad, fmt.Sprintf("AFTER the concurrent phase, like %q on %q: got %v, the glob language says %v", it.pat, it.str, got, it.want))
+		}
+	}
+	if len(bad) > 0 {
+		ctx.Fail("C13/concurrent/wrong-result", "%d like statements evaluated by 8 goroutines at once: %s", len(items), strings.Join(bad, " | "))
+	}
+	P.EvalN(len(items) * 8 * rounds)
+	P.AddDistinct(len(items))
+	P.SetExtra("concurrent_like_statements", len(items))
+}
